@@ -11,6 +11,7 @@ import (
 	"context"
 	"fmt"
 	"path/filepath"
+	"regexp"
 	"strings"
 	"time"
 
@@ -19,24 +20,51 @@ import (
 	"github.com/grafana/cog/internal/codegen"
 )
 
-func c10Pipeline(lr labRun, passesFile string) (*codegen.Pipeline, error) {
-	p, err := lr.pipeline()
+// c10CaseOpts: how a case is generated beyond what Lab.AddCase does
+type c10CaseOpts struct {
+	PassesYAML     string // configured schema transformations ("" = none; %PKG% → case ID)
+	ConstAsPattern bool   // JSON Schema: string constants spelled `type: string, pattern: ^literal$`
+	CueLibInline   bool   // CUE: every definition but the root moves to an imported library package
+	//                       and the input sets InlineExternalReference (what cog.TypesFromSchema does)
+}
+
+func (o c10CaseOpts) plain() bool {
+	return o.PassesYAML == "" && !o.ConstAsPattern && !o.CueLibInline
+}
+
+type c10Gen struct {
+	lr         labRun
+	passesFile string
+	libDir     string // CUE library directory (inline mode), "" otherwise
+	libImport  string
+}
+
+func (g c10Gen) pipeline() (*codegen.Pipeline, error) {
+	p, err := g.lr.pipeline()
 	if err != nil {
 		return nil, err
 	}
-	if passesFile != "" {
-		p.Transforms.CommonPassesFiles = []string{passesFile}
+	if g.passesFile != "" {
+		p.Transforms.CommonPassesFiles = []string{g.passesFile}
+	}
+	if g.libDir != "" {
+		for _, in := range p.Inputs {
+			if in.Cue != nil {
+				in.Cue.CueImports = []string{g.libDir + ":" + g.libImport}
+				in.Cue.InlineExternalReference = true
+			}
+		}
 	}
 	return p, nil
 }
 
-func c10Run(lr labRun, passesFile string) (files map[string][]byte, err error) {
+func (g c10Gen) run() (files map[string][]byte, err error) {
 	defer func() {
 		if rec := recover(); rec != nil {
 			err = fmt.Errorf("PANIC: %v", rec)
 		}
 	}()
-	p, err := c10Pipeline(lr, passesFile)
+	p, err := g.pipeline()
 	if err != nil {
 		return nil, err
 	}
@@ -51,13 +79,13 @@ func c10Run(lr labRun, passesFile string) (files map[string][]byte, err error) {
 	return files, nil
 }
 
-func c10ChainIR(lr labRun, passesFile, lang string) (schemas ast.Schemas, err error) {
+func (g c10Gen) chainIR(lang string) (schemas ast.Schemas, err error) {
 	defer func() {
 		if rec := recover(); rec != nil {
 			err = fmt.Errorf("PANIC: %v", rec)
 		}
 	}()
-	p, err := c10Pipeline(lr, passesFile)
+	p, err := g.pipeline()
 	if err != nil {
 		return nil, err
 	}
@@ -80,10 +108,94 @@ func c10ChainIR(lr labRun, passesFile, lang string) (schemas ast.Schemas, err er
 	return ctx.Schemas, nil
 }
 
-// c10AddCase: like Lab.AddCase; passesYAML ("" = none; %PKG% is replaced by the case ID) is
-// written to <lab>/passes/<caseID>.yaml and handed to the pipeline as a schema transformation file.
-func c10AddCase(l *Lab, defs *Defs, format, passesYAML string) *LabCase {
-	if passesYAML == "" {
+// c10ConstAsPattern rewrites `{"const": "<s>"}` into `{"type": "string", "pattern": "^<s>$"}` (the
+// spelling cog's JSON Schema and OpenAPI loaders recognise as a constant) wherever the literal has
+// no regular-expression operator.
+func c10ConstAsPattern(text string) string {
+	v, err := parseJV([]byte(text))
+	if err != nil {
+		return text
+	}
+	var walk func(x *JV)
+	walk = func(x *JV) {
+		switch x.K {
+		case 'a':
+			for i := range x.A {
+				walk(&x.A[i])
+			}
+		case 'o':
+			if c, ok := x.get("const"); ok && c.K == 's' && regexSafeConst(c.S) && len(x.O) == 1 {
+				*x = jObj(kv("type", jStr("string")), kv("pattern", jStr("^"+c.S+"$")))
+				return
+			}
+			for i := range x.O {
+				walk(&x.O[i].V)
+			}
+		}
+	}
+	walk(&v)
+	return v.pretty() + "\n"
+}
+
+var c10CueDef = regexp.MustCompile(`(?m)^#([A-Za-z0-9_]+):`)
+
+// c10SplitCue moves every definition but the root of a rendered CUE package into a library package
+// `lib`, imported by the main package as "example.com/<lib>"; references become `<lib>.#Name`.
+// ok = false when the term cannot be split (a library definition refers back to the root).
+func c10SplitCue(d *Defs, text, pkg, lib string) (mainText, libText string, ok bool) {
+	for _, it := range d.Items {
+		if it.Name != d.Root && d.reachableFrom(it.Name)[d.Root] {
+			return "", "", false
+		}
+	}
+	blocks := strings.Split(strings.TrimSpace(text), "\n\n")
+	var header, mainDefs, libDefs []string
+	for _, b := range blocks {
+		m := c10CueDef.FindStringSubmatch(b)
+		switch {
+		case m == nil:
+			header = append(header, b)
+		case m[1] == d.Root:
+			mainDefs = append(mainDefs, b)
+		default:
+			libDefs = append(libDefs, b)
+		}
+	}
+	if len(libDefs) == 0 || len(mainDefs) == 0 {
+		return "", "", false
+	}
+	mainBody := strings.Join(mainDefs, "\n\n")
+	for _, it := range d.Items {
+		if it.Name != d.Root {
+			mainBody = regexp.MustCompile(`#`+regexp.QuoteMeta(it.Name)+`\b`).ReplaceAllString(mainBody, lib+".#"+it.Name)
+		}
+	}
+	imports := func(body string, extra string) string {
+		var b strings.Builder
+		for _, imp := range []string{"strings", "time"} {
+			if strings.Contains(body, imp+".") {
+				fmt.Fprintf(&b, "import %q\n", imp)
+			}
+		}
+		if extra != "" {
+			fmt.Fprintf(&b, "import %q\n", extra)
+		}
+		if b.Len() > 0 {
+			return b.String() + "\n"
+		}
+		return ""
+	}
+	_ = header
+	libBody := strings.Join(libDefs, "\n\n")
+	mainText = "package " + pkg + "\n\n" + imports(mainBody, "example.com/"+lib) + mainBody + "\n"
+	libText = "package " + lib + "\n\n" + imports(libBody, "") + libBody + "\n"
+	return mainText, libText, true
+}
+
+// c10AddCase: like Lab.AddCase, with the options above (mirrors Lab.AddCaseVeneers + Lab.generate:
+// the lab API has no hook for transformation files, schema-text rewriting or the inlining mode).
+func c10AddCase(l *Lab, defs *Defs, format string, o c10CaseOpts) *LabCase {
+	if o.plain() || (o.PassesYAML == "" && !(o.ConstAsPattern && format == "jsonschema") && !(o.CueLibInline && format == "cue")) {
 		return l.AddCase(defs, format)
 	}
 	t0 := time.Now()
@@ -104,32 +216,53 @@ func c10AddCase(l *Lab, defs *Defs, format, passesYAML string) *LabCase {
 	}
 	c.Defs = d
 	c.SchemaText, c.RefSchemaText = ro.Text, ro.RefText
-	rel := filepath.Join("passes", c.ID+".yaml")
-	if err := l.writeFile(rel, []byte(strings.ReplaceAll(passesYAML, "%PKG%", c.ID))); err != nil {
-		c.GenErr = "lab: " + err.Error()
-		return c
+	g := c10Gen{}
+	if o.ConstAsPattern && format == "jsonschema" {
+		c.SchemaText = c10ConstAsPattern(c.SchemaText)
+		c.RefSchemaText = ""
+		c.Notes = append(c.Notes, "c10:const-as-pattern")
 	}
-	passesFile := filepath.Join(l.Dir, rel)
+	if o.CueLibInline && format == "cue" {
+		lib := c.ID + "lib"
+		if mainText, libText, ok := c10SplitCue(d, c.SchemaText, c.ID, lib); ok {
+			c.SchemaText = mainText
+			libDir, err := writeSchemaFile(filepath.Join(l.Dir, "schemas"), "cue", lib, libText)
+			if err != nil {
+				c.GenErr = "lab: " + err.Error()
+				return c
+			}
+			g.libDir, g.libImport = libDir, "example.com/"+lib
+			c.Notes = append(c.Notes, "c10:cue-library-inlined")
+		}
+	}
+	if o.PassesYAML != "" {
+		rel := filepath.Join("passes", c.ID+".yaml")
+		if err := l.writeFile(rel, []byte(strings.ReplaceAll(o.PassesYAML, "%PKG%", c.ID))); err != nil {
+			c.GenErr = "lab: " + err.Error()
+			return c
+		}
+		g.passesFile = filepath.Join(l.Dir, rel)
+	}
 	path, err := writeSchemaFile(filepath.Join(l.Dir, "schemas"), c.Format, c.ID, c.SchemaText)
 	if err != nil {
 		c.GenErr = "lab: " + err.Error()
 		return c
 	}
 	c.SchemaPath = path
-	lr := l.labRun(c)
-	files, err := c10Run(lr, passesFile)
+	g.lr = l.labRun(c)
+	files, err := g.run()
 	if err != nil {
 		c.GenErr = err.Error()
 	} else {
 		c.Files = files
 	}
-	if ir, err := c10ChainIR(lr, passesFile, "go"); err != nil {
+	if ir, err := g.chainIR("go"); err != nil {
 		c.IRGoErr = err.Error()
 	} else {
 		c.IRGo = ir
 		c.GoObjects = goObjectsOf(ir, c.ID, c.GoFlags, false)
 	}
-	if ir, err := c10ChainIR(lr, passesFile, "python"); err != nil {
+	if ir, err := g.chainIR("python"); err != nil {
 		c.IRPyErr = err.Error()
 	} else {
 		c.IRPy = ir
